@@ -18,7 +18,7 @@ func init() {
 		Explain: "Decides on every path of partitionConsumer.parseResponse: the batch's messages are appended to the delivered list only when the batch is not a control batch and — under ReadCommitted — not (transactional ∧ its producer in the aborted set), while under ReadUncommitted nothing is filtered (C11.no-control); " +
 			"parseRecords (which advances child.offset) runs before the control/aborted filters can skip the batch (C11.advance); the aborted set is extended only from index entries whose first offset is not beyond the batch and each used entry is popped, and an entry is removed only on an ABORT marker (C11.marker); the aborted index is sorted by FirstOffset (C11.sorted); the request carries the configured isolation level (C11.request). " +
 			"NOT covered: transactions spanning fetch responses (the set is per response), completeness of the broker's index.",
-		Rules: []func(*Ctx){c11Rules, c11ControlTolerant, c03FetchFields, c03FreshElement, c03ErrLost, c11DecodedElementKept},
+		Rules: []func(*Ctx){c11Rules, c11ControlTolerant, c03FetchFields, c03FreshElement, c03ErrLost, c11DecodedElementKept, c11EveryBatchCounted},
 	})
 }
 
@@ -281,6 +281,29 @@ func c11Rules(c *Ctx) {
 		c.Check(it.IsZero() && okLess, "C11.sorted", g, "sorted-by-first-offset", nil, "aborted index sorted ascending by FirstOffset before use (comparator evaluated over all field orderings)",
 			"the aborted-transaction index is returned unsorted, or its comparator is not an ordering by FirstOffset first ("+detail+"): parseResponse stops at the first entry beyond the batch, so an entry sorted behind a later one is activated too late and aborted records are delivered", path)
 	}
+	// what is returned is the slice that was sorted — all of it
+	if g := p.Fn("FetchResponseBlock.getAbortedTransactions"); g != nil && g.Blocks != nil {
+		reg := WholeFn(g)
+		var sorted []ssa.Value
+		for _, s := range reg.Find(p.CallTo("sort.Slice", "sort.SliceStable")) {
+			if a := callArgs(s); len(a) > 0 {
+				sorted = append(sorted, strip(a[0]))
+			}
+		}
+		for _, r := range reg.Find(IsReturn()) {
+			rv := RetVals(r.In.(*ssa.Return))
+			if len(rv) != 1 {
+				continue
+			}
+			ok := false
+			for _, sv := range sorted {
+				if samePath(throughCell(rv[0]), throughCell(sv)) || samePath(strip(rv[0]), sv) {
+					ok = true
+				}
+			}
+			c.Check(ok, "C11.sorted", g, "returns-what-it-sorted", r.Instr(), "the slice handed to sort.Slice is what is returned", "getAbortedTransactions returns something other than the slice it sorted ("+describe(rv[0])+") — a filtered or re-built list: parseResponse removes a producer from the aborted set at its ABORT marker and relies on that producer's *next* index entry to put it back; an index reduced to one entry per producer (or cut in any other way) lets the records of the later aborted transaction through", nil)
+		}
+	}
 	// parseResponse must take the index from getAbortedTransactions
 	usesSorted := hasItem(fn, p.CallTo("FetchResponseBlock.getAbortedTransactions"))
 	c.Check(usesSorted, "C11.sorted", fn, "uses-sorted-index", nil, "parseResponse iterates the sorted index", "parseResponse does not use getAbortedTransactions(): unsorted index", nil)
@@ -413,4 +436,30 @@ func c11ControlTolerant(c *Ctx) {
 		c.Check(ok, rule, fn, fmt.Sprintf("return#%d-error-is-a-read-error", n), r, "the error returned is nil or the error of a read", "ControlRecord.decode returns an error of its own making ("+describe(v)+"): a well-formed commit/abort marker it does not like (for instance a newer key version) fails the whole fetch response — the data records fetched before the marker are dropped although the offset has advanced past them, at every isolation level", nil)
 	}
 	_ = p
+}
+
+// throughCell: a load of a local variable that is assigned exactly once stands for the value assigned.
+func throughCell(v ssa.Value) ssa.Value {
+	for d := 0; d < 4; d++ {
+		v = strip(v)
+		u, ok := v.(*ssa.UnOp)
+		if !ok || u.Op != token.MUL {
+			return v
+		}
+		al, ok := u.X.(*ssa.Alloc)
+		if !ok {
+			return v
+		}
+		var stored []ssa.Value
+		for _, r := range *al.Referrers() {
+			if st, ok := r.(*ssa.Store); ok && st.Addr == ssa.Value(al) {
+				stored = append(stored, st.Val)
+			}
+		}
+		if len(stored) != 1 {
+			return v
+		}
+		v = stored[0]
+	}
+	return v
 }
